@@ -368,7 +368,7 @@ def m_fclamp(c):
     return Flt(r)
 
 
-@pattern(r'^core::(f32|f64)::(abs|is_nan|is_finite|is_infinite|to_bits|from_bits|max|min|total_cmp|sqrt|is_sign_negative|is_sign_positive)$')
+@pattern(r'^core::(f32|f64)::(abs|is_nan|is_finite|is_infinite|to_bits|from_bits|max|min|total_cmp|sqrt|is_sign_negative|is_sign_positive|classify|is_normal|is_subnormal)$')
 def m_fmisc(c):
     op = c.canon.split('::')[-1]
     x = deref(c.st, c.args[0])
@@ -384,6 +384,15 @@ def m_fmisc(c):
         return z3.simplify(z3.fpIsInf(x.v))
     if op == 'is_finite':
         return z3.simplify(z3.Not(z3.Or(z3.fpIsNaN(x.v), z3.fpIsInf(x.v))))
+    if op == 'is_normal':
+        return z3.simplify(z3.fpIsNormal(x.v))
+    if op == 'is_subnormal':
+        return z3.simplify(z3.fpIsSubnormal(x.v))
+    if op == 'classify':
+        d = z3.If(z3.fpIsNaN(x.v), z3.BitVecVal(0, 64), z3.If(z3.fpIsInf(x.v), z3.BitVecVal(1, 64), z3.If(z3.fpIsZero(x.v), z3.BitVecVal(2, 64),
+                  z3.If(z3.fpIsSubnormal(x.v), z3.BitVecVal(3, 64), z3.BitVecVal(4, 64)))))
+        d = z3.simplify(d)
+        return Enum('FpCategory', d.as_long() if z3.is_bv_value(d) else d, {})
     if op == 'to_bits':
         return Int(float_bits(c.st, x), False)
     if op in ('is_sign_negative', 'is_sign_positive'):
